@@ -38,7 +38,7 @@ fn gen(seed: u64, tier: Tier) -> Case {
     }
     let nkeys = *r.pick(&[1u16, 2, 3, 8]);
     let byron_pm = *r.pick(&[0u64, 0, 100, 500]);
-    let mut w = World { network: r.below(2) as u8, magic: 764824073, scripts: vec![ScriptSpec::Native(Ns::Pk(0))], datums: vec![], utxos: vec![] };
+    let mut w = World { network: r.below(2) as u8, magic: 764824073, scripts: vec![ScriptSpec::Native(Ns::Pk(0))], datums: vec![], utxos: vec![], decoded_scripts: false };
     let n = if tier == Tier::Thorough { *r.pick(&[1usize, 2, 3, 5, 8, 13, 23, 24, 25, 40, 60, 120, 255, 256, 400]) } else { *r.pick(&[1usize, 2, 3, 4, 5, 8, 13, 23, 24, 25, 40, 60]) };
     let npol = *r.pick(&[0u16, 1, 1, 2, 3, 5, 10, 24]);
     let names_per_pol = *r.pick(&[1usize, 1, 2, 3, 8, 23, 24, 30]);
